@@ -33,7 +33,10 @@ def validate(ctx, module, cfg_text, path, name, keyfn, what="trace",
         at = min(max(at, 1), len(cur))
         ln = cur[at - 1]
         rejected += 1
-        key = keyfn(ln)
+        try:
+            key = keyfn(ln, cur, at - 1)
+        except TypeError:
+            key = keyfn(ln)
         ctx.report(key, "line %d of the %s is not explained by %s.tla: %s" %
                    (at, what, module, json.dumps(ln)[:500]),
                    {"line": ln, "context": cur[max(0, at - 12):at + 2]})
